@@ -63,7 +63,7 @@ class Bounded(Native):
 
 class NextOf(Native):
     def __init__(self, it):
-        self.it = it
+        self.it = IdSource(it) if isinstance(it, (list, tuple)) else it
 
     def __repr__(self):
         return 'NextOf'
@@ -233,12 +233,17 @@ def rule_r1(repo):
         got = tree_of(r.value if isinstance(r.value, list) else [])
         if got != want:
             rr.fail('_descriptors_from_ids_iter:tree', fi.where, 'list %s builds %s; FM-94 ownership gives %s' % (ids, got, want), witness={'ids': ids})
-    # the public wrapper converts string ids and feeds the iterator form
+    # the public wrapper converts string ids and feeds one shared iterator to the builder: folded
     w = repo.func('tables', '_descriptors_from_ids')
-    t = norm(w.node)
-    rr.instance('_descriptors_from_ids wraps the id list in a single shared iterator')
-    if 'functools.partial(next, g)' not in t or '_descriptors_from_ids_iter(b, c, r, d,' not in t:
-        rr.fail('_descriptors_from_ids:wrapper', w.where, 'the wrapper no longer hands one shared iterator over the ids to _descriptors_from_ids_iter')
+    for ids in ([102002, 1001, 12101, 10004], ['101000', '031001', '012101', '001001'], [301001, 101002, 12101]):
+        it = BuildInterp(repo, None)
+        res = it.run_function(w, lambda: {'b': Table('B', B_DEFINED), 'c': Table('C', ()), 'r': Table('R', ()), 'd': Table('D', D_DEFINED), 'ids': list(ids)})
+        rr.instance('_descriptors_from_ids(%s)' % (ids,))
+        want = ref_build(ids)
+        for r in res:
+            got = tree_of(r.value) if r.ok and isinstance(r.value, list) else r.describe()
+            if got != want:
+                rr.fail('_descriptors_from_ids:wrapper', w.where, 'the list %s builds %s through the public wrapper (expected %s)' % (ids, got, want))
     # generate_quiet: bounded by the iterable, StopIteration of the source ends it quietly
     gq = repo.func('utils', 'generate_quiet')
     body = gq.node.body
@@ -348,18 +353,32 @@ def rule_r4(repo):
             if repo.is_subclass(u, base):
                 rr.fail('descriptors.%s:subclass' % u, repo.cls(u).module.relpath, '%s is a subclass of %s: an undefined descriptor would be processed instead of refused' % (u, base))
         rr.instance('%s is outside the dispatched classes' % u)
-    # two-pass loading
+    # Table D: sequences may reference sequences defined later in the file (two-pass loading), folded
     init = repo.own_method('TableD', '__init__')
-    loops = [n for n in ast.walk(init.node) if isinstance(n, ast.For) and norm(n.iter) == 'sorted_ids']
-    rr.instance('TableD.__init__: %d passes over the sorted ids' % len(loops))
-    ok = len(loops) == 2
-    if ok:
-        first, second = sorted(loops, key=lambda n: n.lineno)
-        ok = 'SequenceDescriptor(id_, name, None)' in norm(first) and '_descriptors_from_ids(b, c, r, self, member_ids)' in norm(second) \
-            and 'self.descriptors[id_].members = members' in norm(second)
-    if not ok:
-        rr.fail('TableD.__init__:two-pass', init.where, 'Table D is no longer loaded in two passes (create every sequence first, then resolve members through the table itself)')
-    rr.require_floor(9)
+
+    class TD(BuildInterp):
+        def on_call(self2, text, callee, args, kwargs, node, frame):
+            if text == 'self.load_json_files':
+                return [{'300002': ['FIRST', ['300010', '001001']], '300010': ['SECOND', ['001002', '101002', '012101']]}]
+            if isinstance(callee, UnknownMethod) and callee.name == '__init__':
+                return None
+            return BuildInterp.on_call(self2, text, callee, args, kwargs, node, frame)
+    it = TD(repo, 'TableD')
+    res = it.run_function(init, lambda: {'self': Obj('TableD', {}), 'b': Table('B', B_DEFINED), 'c': Table('C', ()), 'r': Table('R', ()), 'args': ('K',), 'kwargs': {}},
+                          self_class='TableD')
+    rr.instance('TableD.__init__: forward reference between sequences resolved')
+    for r in res:
+        d = r.locals['self'].fields.get('descriptors') if r.ok else None
+        ok = isinstance(d, dict) and set(d) == {300002, 300010}
+        if ok:
+            first, second = d[300002], d[300010]
+            fm = first.fields.get('members') or []
+            ok = len(fm) == 2 and fm[0] is second and tree_of(second.fields.get('members') or []) == \
+                [('ElementDescriptor', 1002), ('FixedReplicationDescriptor', 101002, None, [('ElementDescriptor', 12101)])]
+        if not ok:
+            rr.fail('TableD.__init__:forward-reference', init.where, 'a sequence referring to a sequence defined later in the table is not resolved to that very '
+                    'sequence with its members (%s)' % (r.describe() if not r.ok else sorted(d) if isinstance(d, dict) else d))
+    rr.require_floor(8)
     return rr
 
 
